@@ -1109,3 +1109,79 @@ Proof.
   - rewrite Hhd. unfold m2. rewrite nth_upd_same by exact Hnode1. now rewrite nth_upd_other.
   - unfold m2. rewrite length_upd. unfold m1. rewrite app_length. rewrite app_length in Hlen. cbn in *. lia.
 Qed.
+
+(* ====================================================================== *)
+(* §7  indifference to the element type                                    *)
+(* ====================================================================== *)
+
+(* The containers are generic in a comparable T; the models fix T := Z.  What
+   the harness does at T = string / struct (harness/c05_instances.go) is to run
+   the history through an injective codec that maps the zero value to 0.  The
+   specification commutes with every such renaming of the elements: *)
+
+Definition qop_map (f : Z -> Z) (o : qop) : qop :=
+  match o with
+  | Enqueue x => Enqueue (f x)
+  | Search x => Search (f x)
+  | o => o
+  end.
+
+Definition qout_map (f : Z -> Z) (r : qout) : qout :=
+  match r with
+  | ODeq e v => ODeq e (f v)
+  | OVal v => OVal (f v)
+  | r => r
+  end.
+
+Lemma existsb_eqb_map (f : Z -> Z) x l : (forall a b, f a = f b -> a = b) ->
+  existsb (Z.eqb (f x)) (map f l) = existsb (Z.eqb x) l.
+Proof.
+  intros Hinj. induction l as [|y l IH]; [reflexivity|]. cbn [map existsb]. rewrite IH. f_equal.
+  destruct (x =? y) eqn:E.
+  - apply Z.eqb_eq in E. subst. apply Z.eqb_refl.
+  - apply Z.eqb_neq. intros H. apply Hinj in H. apply Z.eqb_neq in E. contradiction.
+Qed.
+
+Lemma fifo_step_equivariant (f : Z -> Z) l o :
+  (forall a b, f a = f b -> a = b) -> f 0 = 0 ->
+  fifo_step (map f l) (qop_map f o) =
+  (map f (fst (fifo_step l o)), qout_map f (snd (fifo_step l o))).
+Proof.
+  intros Hinj H0. destruct o as [x| | |x| |]; cbn [qop_map fifo_step fst snd qout_map].
+  - now rewrite map_app.
+  - destruct l as [|y l]; cbn [map fst snd qout_map]; [now rewrite H0|reflexivity].
+  - destruct l as [|y l]; cbn [map hd]; [now rewrite H0|reflexivity].
+  - now rewrite existsb_eqb_map.
+  - now rewrite map_length.
+  - reflexivity.
+Qed.
+
+Lemma fifo_equivariant (f : Z -> Z) ops :
+  (forall a b, f a = f b -> a = b) -> f 0 = 0 -> forall l,
+  outs fifo_step (map f l) (map (qop_map f) ops) = map (qout_map f) (outs fifo_step l ops) /\
+  state_after fifo_step (map f l) (map (qop_map f) ops) = map f (state_after fifo_step l ops).
+Proof.
+  intros Hinj H0. induction ops as [|o ops IH]; intros l; [split; reflexivity|].
+  cbn [map]. rewrite !outs_cons, !state_after_cons, (fifo_step_equivariant f l o Hinj H0). cbn [fst snd map].
+  destruct (IH (fst (fifo_step l o))) as [IH1 IH2]. rewrite IH1, IH2. split; reflexivity.
+Qed.
+
+Lemma forget_err_map f r : forget_err (qout_map f r) = qout_map f (forget_err r).
+Proof. destruct r; reflexivity. Qed.
+
+Lemma sq_equivariant (f : Z -> Z) ops :
+  (forall a b, f a = f b -> a = b) -> f 0 = 0 ->
+  outs sq_step sq_new (map (qop_map f) ops) = map (qout_map f) (outs sq_step sq_new ops).
+Proof.
+  intros Hinj H0. rewrite !sq_outs_fifo. exact (proj1 (fifo_equivariant f ops Hinj H0 [])).
+Qed.
+
+Lemma lq_equivariant (f : Z -> Z) t ops :
+  (forall a b, f a = f b -> a = b) -> f 0 = 0 ->
+  outs lq_step (lq_new (f t)) (map (qop_map f) ops) = map (qout_map f) (outs lq_step (lq_new t) ops).
+Proof.
+  intros Hinj H0.
+  rewrite (proj1 (lq_refines (f t) _)), (proj1 (lq_refines t ops)).
+  change [f t] with (map f [t]). rewrite (proj1 (fifo_equivariant f ops Hinj H0 [t])).
+  rewrite !map_map. apply map_ext. intros r. apply forget_err_map.
+Qed.
